@@ -232,9 +232,8 @@ def run(rep):
                     okf = len(finds) == 1 and q.var_id(finds[0]["args"][1]) == fld or (len(finds) == 1 and show(finds[0]["args"][1]) in ("Deref::deref(f)", "Deref::deref(field)"))
                     rep.check(okf, "T-CAST", key + "/find", a["sp"], "looks up exactly the operand's own field", "; ".join(show(x) for x in finds))
                     # the match on find(): None => return Missing
-                    fm = [x for x in walk(body) if x.get("k") == "Match" and finds and any(y is finds[0] for y in walk(x["scrut"]))]
-                    none = q.find_arm(fm[0], "Option", "None") if fm else None
-                    rep.check(bool(none) and q.returns_sr(none["body"], "Missing"), "T-CAST", key + "/absent", a["sp"], "absent field => Missing", show(none["body"])[:60] if none else "-")
+                    fb = q.failure_branch(body, finds[0]) if finds else None
+                    rep.check(isinstance(fb, dict) and q.returns_sr(fb, "Missing"), "T-CAST", key + "/absent", a["sp"], "absent field => Missing", show(fb)[:60] if isinstance(fb, dict) else str(fb))
                     # the conversion match over Value kinds
                     vm = [x for x in walk(body) if x.get("k") == "Match" and any(variant_of(p) and variant_of(p)[0] == "Value" for aa in x["arms"] for p in or_pats(aa["pat"]))]
                     if not vm:
@@ -359,18 +358,27 @@ def run(rep):
         tos = q.calls(arm["body"], "::to_string")
         rep.check(len(finds) == 2 and {show(f["args"][1]) for f in finds} == {"Deref::deref(left)", "Deref::deref(right)"}, "T-STR", "T-STR/lookups", arm["sp"], "one lookup per side", "; ".join(show(f) for f in finds))
         rep.check(len(tos) == 2 and all("Value" in (t.get("fn") or "") or "value" in (t.get("fn") or "") for t in tos), "T-STR", "T-STR/to_string", arm["sp"], "both sides use Value::to_string", "; ".join(t.get("fn") or "?" for t in tos))
-        ifs = [x for x in walk(arm["body"]) if x.get("k") == "If" and (call_is(peel(x["cond"]), "PartialEq::eq") or (peel(x["cond"]).get("k") == "Binary" and peel(x["cond"])["op"] == "Eq"))]
-        ok = len(ifs) == 1 and q.returns_sr(ifs[0]["then"], "True") and q.returns_sr(ifs[0]["else"], "False")
+        def _is_eq(c):
+            c = q.resolve(arm["body"], c)
+            return call_is(c, "PartialEq::eq") or (c.get("k") == "Binary" and c["op"] == "Eq")
+        ifs = [x for x in walk(arm["body"]) if x.get("k") == "If" and _is_eq(x["cond"])]
+        def _leaf(n, which):
+            return n is not None and (q.returns_sr(n, which) or q.is_sr(facts.only(n), which))
+        ok = len(ifs) == 1 and _leaf(ifs[0]["then"], "True") and _leaf(ifs[0].get("else"), "False")
         rep.check(ok, "T-STR", "T-STR/compare", arm["sp"], "x == y => True else False", show(ifs[0])[:100] if ifs else "-")
-        nones = [a for m in walk(arm["body"]) if m.get("k") == "Match" for a in m["arms"] if variant_of(a["pat"]) == ("Option", "None")]
-        miss = sum(1 for a in nones if q.returns_sr(a["body"], "Missing"))
-        fals = sum(1 for a in nones if q.returns_sr(a["body"], "False"))
+        fbs = [q.failure_branch(arm["body"], c) for c in finds + tos]
+        miss = sum(1 for c in finds if isinstance(q.failure_branch(arm["body"], c), dict) and q.returns_sr(q.failure_branch(arm["body"], c), "Missing"))
+        fals = sum(1 for c in tos if isinstance(q.failure_branch(arm["body"], c), dict) and q.returns_sr(q.failure_branch(arm["body"], c), "False"))
+        nones = fbs
         rep.check(len(nones) == 4 and miss == 2 and fals == 2, "T-STR", "T-STR/none-arms", arm["sp"], "absent => Missing (x2), unconvertible => False (x2)", "%d None arms, %d Missing, %d False" % (len(nones), miss, fals))
     rep.floor("T-STR", 4)
     # the optimised (matrix) form of a numeric comparison keeps the operand's cast kind and literal (shared with C03's L-MATRIX)
     import core
     core.import_rules(rep, "c03", {"L-MATRIX"}, key_prefixes=("L-MATRIX/cell-",))
     rep.extra["casts_classified"] = ncasts
+    if rep.tier == "thorough":
+        import poscontrol
+        poscontrol.lossy(rep)
     rep.exhaustive = True
     rep.assumptions.append("a UInt above i64::MAX compared with an Int constant makes every comparison false (statement's 'true only when' is met; trichotomy read per variant)")
     rep.assumptions.append("Rust primitive comparison operators and str::parse behave as documented")
